@@ -285,7 +285,7 @@ def generate(sess):
     for suite in TOY_SUITES + REAL_SUITES:
         special_states(sess, suite, ["bin", "json"])
         if thorough or suite in ("ed448", "p256"):
-            large_state(sess, suite, 1200)
+            large_state(sess, suite, 1200 if suite in REAL_SUITES else 9000)   # toy entries are 8 bytes: more of them for > 64 KiB
         sizes = [(2, 2), (3, 2), (4, 3), (5, 5)] if thorough else ([(3, 2), (4, 3)] if suite in TOY_SUITES else [(3, 2)])
         for (n, t) in sizes:
             protocol_runs(sess, suite, n, t, ["bin", "json"])
